@@ -30,16 +30,16 @@ fn main() {
         sort: Some(vec!["k".into()]),
         unique_keys: true,
     };
-    let dc = DirCase { seed, vstores: vec![false, true], stores: vec![st], indexes: vec![IndexDef { name: "all".into(), store: 0, offset: 0, count: 24 }, IndexDef { name: "win".into(), store: 0, offset: 5, count: 9 }] };
+    let dc = DirCase { seed, vstores: vec![false, true], stores: vec![st], indexes: vec![IndexDef { name: "all".into(), store: 0, offset: 0, count: 24 }, IndexDef { name: "win".into(), store: 0, offset: 5, count: 9 }], defer: 1 };
     let (inst, bytes) = create_mem(&dc).expect("create directory");
     let pack = open_dir_mem(bytes).expect("open directory");
     verify_dir(&dc, &inst, &pack, &mut out, &VerifyOpts { prop: "C02", handles: true });
     // (2) raw content pack
     let items = vec![
-        Item { len: 10, ent: Ent::High, hint: Hint::No, src: Src::Mem, dup_of: None },
-        Item { len: 300, ent: Ent::Low4, hint: Hint::Detect, src: Src::Mem, dup_of: None },
-        Item { len: 0, ent: Ent::High, hint: Hint::Yes, src: Src::Mem, dup_of: None },
-        Item { len: 4100, ent: Ent::Mid6, hint: Hint::Yes, src: Src::Mem, dup_of: None },
+        Item { len: 10, ent: Ent::High, hint: Hint::No, src: Src::Mem, dup_of: None, cat_of: None },
+        Item { len: 300, ent: Ent::Low4, hint: Hint::Detect, src: Src::Mem, dup_of: None, cat_of: None },
+        Item { len: 0, ent: Ent::High, hint: Hint::Yes, src: Src::Mem, dup_of: None, cat_of: None },
+        Item { len: 4100, ent: Ent::Mid6, hint: Hint::Yes, src: Src::Mem, dup_of: None, cat_of: None },
     ];
     let cc = ContentCase { seed, comp: Comp::None, cached: false, items };
     let base = std::env::temp_dir();
